@@ -68,7 +68,12 @@ class L2Domain:
             return max(a)
         r = a[0]
         for y in a[1:]:
-            r = y if y > r else r
+            try:
+                gt = bool(y > r)
+            except UnknownTruth as u:
+                from .interp import UnknownBool
+                gt = self.ctx.interp.truth(UnknownBool(f'max(): {u.why}'))          # both orders are explored
+            r = y if gt else r
         return r
 
     def _sum(self, xs, start=0):
